@@ -137,11 +137,11 @@ def source_scan():
     return hits
 
 
-def audit_axioms(theorems, tag):
+def audit_axioms(theorems, tag, modules=None):
     """`#print axioms` for every named theorem.  Returns dict name -> list of axioms (or None if missing)."""
     path = os.path.join(LEAN, ".lake", "audit_%s.lean" % tag)
     with open(path, "w") as f:
-        f.write("import MistuneProofs\n")
+        f.write("".join("import %s\n" % m for m in (modules or ["MistuneProofs"])))
         for t in theorems:
             f.write("#print axioms %s\n" % t)
     rc, out = run(["lake", "env", "lean", path], cwd=LEAN, timeout=1200)
@@ -157,21 +157,74 @@ def audit_axioms(theorems, tag):
     return res, out
 
 
+_DECL = r"^\s*(?:@\[[^\]]*\]\s*)*(?:private\s+|protected\s+|noncomputable\s+)*(?:theorem|lemma|def|abbrev|instance)\s+(?:Mistune\.)?%s(?![\w'.])"
+
+
+def lean_sources():
+    out = {}
+    for root, _, files in os.walk(LEAN):
+        if ".lake" in root:
+            continue
+        for fn in files:
+            if fn.endswith(".lean"):
+                path = os.path.join(root, fn)
+                mod = os.path.relpath(path, LEAN)[:-5].replace(os.sep, ".")
+                out[mod] = open(path, encoding="utf-8").read()
+    return out
+
+
+def theorem_modules(theorems, srcs=None):
+    """module of every named theorem (None when it cannot be located)"""
+    srcs = srcs or lean_sources()
+    res = {}
+    for t in theorems:
+        short = t.split(".", 1)[1] if t.startswith("Mistune.") else t
+        rx = re.compile(_DECL % re.escape(short), re.M)
+        hit = [m for m, txt in srcs.items() if m.startswith("MistuneProofs") and rx.search(txt)] or [m for m, txt in srcs.items() if rx.search(txt)]
+        res[t] = hit[0] if hit else None
+    return res
+
+
+def import_closure(mods, srcs=None):
+    srcs = srcs or lean_sources()
+    seen, todo = set(), [m for m in mods if m]
+    while todo:
+        m = todo.pop()
+        if m in seen or m not in srcs:
+            continue
+        seen.add(m)
+        todo += re.findall(r"^import\s+(\S+)", srcs[m], flags=re.M)
+    return seen
+
+
 def proof_stage(ctx, theorems, targets=None):
-    """Build + scan + audit.  Records obligations/discharged; returns list of broken items (strings)."""
+    """Build + scan + audit.  Records obligations/discharged; returns list of broken items (strings).
+    A build failure counts for this property only when it is in a module the property's theorems are stated in or import (their
+    import closure, which contains the model and the regenerated data they use): an obligation of another property that stops
+    checking is that property's violation, not this one's."""
     broken = []
     ok, log, info = lean_build(targets)
+    srcs = lean_sources()
+    tmods = theorem_modules(theorems, srcs)
+    closure = import_closure(set(tmods.values()), srcs) if all(tmods.values()) else None
     if not ok:
+        rel = []
         for e in info["errors"]:
-            broken.append("lean-build: %s:%s: %s" % (e[0], e[1], e[3][:200]))
-        if not info["errors"]:
-            broken.append("lean-build failed: " + log[-400:])
+            mod = e[0][:-5].replace("/", ".").lstrip(".")
+            if closure is None or mod in closure or mod not in srcs:
+                rel.append("lean-build: %s:%s: %s" % (e[0], e[1], e[3][:200]))
+        failed_rel = [m for m in info["failed_modules"] if closure is None or m in closure or m not in srcs]
+        if rel or (failed_rel and not info["errors"]) or not (info["errors"] or info["failed_modules"]):
+            broken += rel or ["lean-build failed: " + log[-400:]]
+        else:
+            ctx.notes.append("lean build fails in modules this property does not depend on (%s): reported by the properties that do" % ", ".join(sorted(set(e[0] for e in info["errors"]))[:4]))
+            ok = True
     hits = source_scan()
     for h in hits:
         broken.append("forbidden-token: " + h)
     axioms = {}
     if ok:
-        axioms, out = audit_axioms(theorems, ctx.prop)
+        axioms, out = audit_axioms(theorems, ctx.prop, sorted(set(tmods.values())) if all(tmods.values()) else None)
         for t, ax in axioms.items():
             if ax is None:
                 broken.append("theorem-missing: " + t)
